@@ -214,7 +214,8 @@ def check_framing(ctx):
     ctx.ob("C04.P1", q, ok, f"the look-ahead takes exactly the {K} prefix bytes" if ok else f"the look-ahead size `{norm(pc.args[0]) if pc.args else ''}` is not the prefix size {K}", key="peek-size", where=f.where)
     # data flow: unpack consumes the peeked bytes
     pvars = {t.id for t in rules.assigned_targets(pn.ast) if isinstance(t, ast.Name)} if isinstance(pn.ast, ast.Assign) and pn.ast.value is pc else set()
-    ok = len(unp[0].args) >= 2 and (norm(unp[0].args[1]) in pvars or unp[0].args[1] is pc)
+    un = next((n for n in cfg.real_nodes() if any(c is unp[0] for c in n.calls)), None)
+    ok = len(unp[0].args) >= 2 and (norm(unp[0].args[1]) in pvars or unp[0].args[1] is pc) and un is not None and (un is pn or cfg.dominates(pn, un)) and cfg.dominates(un, cn)
     ctx.ob("C04.P1", q, ok, "the length is unpacked from the peeked bytes" if ok else "the unpacked bytes are not the peeked prefix", key="unpack-source", where=f.where)
     csize = _affine(cc.args[0], env) if cc.args else None
     ok = csize == (True, K)
@@ -230,7 +231,7 @@ def check_framing(ctx):
     t = H.ast
     guard_ok = cnd.canon(t, True) == {(f"len(self._receive_buffer) < {K}", False)}
     ctx.ob("C04.P1", q, guard_ok, f"the loop runs while at least {K} bytes (a full prefix) are buffered" if guard_ok else f"loop guard `{norm(t)}` is not `at least {K} bytes buffered`: a partial prefix is unpacked or a buffered frame is left behind", key="loop-guard", where=f.where)
-    pre = [n for n in cfg.nodes if n.kind == "test" and n.label == "if" and norm(n.ast).startswith("len(self._receive_buffer)") and cfg.dominates(n, H)]
+    pre = [n for n in cfg.nodes if n.kind == "test" and n.label == "if" and "self._receive_buffer" in norm(n.ast) and cfg.dominates(n, H)]
     for n in pre:
         tt = n.ast
         returns_on = "true" if any(isinstance(x.ast, ast.Return) and cfg.dominates(rules.branch_marker(n, "true"), x) for x in cfg.real_nodes()) else "false"
@@ -268,7 +269,7 @@ def _availability_checked(cfg, cn, env, K) -> bool:
     return False
 
 
-def check_byte_queue(ctx):
+def check_byte_queue(ctx, rule="C04.W1"):
     repo = ctx.repo
     pop = repo.method("ByteQueue", "pop", inherited=False)
     ctx.touch(pop)
@@ -286,13 +287,13 @@ def check_byte_queue(ctx):
                   and st.body.index(took[0]) < st.body.index(dels[0])
                   and len(rets) == 1 and norm(rets[0].value) == took[0].targets[0].id
                   and (rets[0] not in st.body or st.body.index(rets[0]) > st.body.index(dels[0])))
-    ctx.ob("C04.W1", pop.qualname, ok, "pop returns the first n bytes and removes exactly those, under the lock" if ok else "ByteQueue.pop does not return+remove the same leading bytes under its lock: bytes are lost or duplicated between frames", where=pop.where)
+    ctx.ob(rule, pop.qualname, ok, "pop returns the first n bytes and removes exactly those, under the lock" if ok else "ByteQueue.pop does not return+remove the same leading bytes under its lock: bytes are lost or duplicated between frames", where=pop.where)
     peek = repo.method("ByteQueue", "peek", inherited=False)
     p = peek.node.args.args[1].arg
     rets = [s for s in rules.func_stmts(peek.node) if isinstance(s, ast.Return)]
     removes = any(isinstance(s, ast.Delete) for s in rules.func_stmts(peek.node))
     ok = len(rets) == 1 and rules.expand(peek.node, rets[0].value) == f"self._buffer[:{p}]" and not removes
-    ctx.ob("C04.W1", peek.qualname, ok, "peek returns the first n bytes without removing them" if ok else "ByteQueue.peek does not return the leading bytes unconsumed", where=peek.where)
+    ctx.ob(rule, peek.qualname, ok, "peek returns the first n bytes without removing them" if ok else "ByteQueue.peek does not return the leading bytes unconsumed", where=peek.where)
     wf = repo.method("ByteQueue", "wait_for", inherited=False)
     ctx.touch(wf)
     wfn = normal.normalised(ctx, wf, keep={"peek", "pop"})
@@ -303,7 +304,7 @@ def check_byte_queue(ctx):
     for r in rets:
         by.setdefault(norm(r.ast.value), []).append(r)
     ok = set(by) == {f"self.peek({ps})", f"self.pop({ps})"} and all(cnd.holds(cfg, r, pp) for r in by[f"self.peek({ps})"]) and all(cnd.holds(cfg, r, f"not {pp}") for r in by[f"self.pop({ps})"])
-    ctx.ob("C04.W1", wf.qualname, ok, "wait_for(size, peek) peeks when asked to and pops otherwise, with the same size" if ok else f"wait_for returns {dict((k, [cnd.describe(cfg, r) for r in v]) for k, v in by.items())}", key="peek-or-pop", where=wf.where)
+    ctx.ob(rule, wf.qualname, ok, "wait_for(size, peek) peeks when asked to and pops otherwise, with the same size" if ok else f"wait_for returns {dict((k, [cnd.describe(cfg, r) for r in v]) for k, v in by.items())}", key="peek-or-pop", where=wf.where)
     # predicate compares the buffer length with the requested size
     want = {(f"len(self._buffer) < {ps}", False)}
     preds = []
@@ -318,7 +319,42 @@ def check_byte_queue(ctx):
     ok = bool(preds) and all(cnd.canon(x, True) == want for x in preds)
     if not preds:
         ok = any(isinstance(x, ast.While) and cnd.canon(x.test, True) == {(f"len(self._buffer) < {ps}", True)} for x in ast.walk(wfn))
-    ctx.ob("C04.W1", wf.qualname, ok, "the wait predicate is `at least size bytes buffered`" if ok else "the wait predicate is not `len(buffer) >= size`: the reader is released with too few bytes", key="predicate", where=wf.where)
+    ctx.ob(rule, wf.qualname, ok, "the wait predicate is `at least size bytes buffered`" if ok else "the wait predicate is not `len(buffer) >= size`: the reader is released with too few bytes", key="predicate", where=wf.where)
+    # no way to the peek/pop with fewer than `size` bytes buffered: every path either sees `len >= size` or waits for it
+    atom = f"len(self._buffer) < {ps}"
+    waits = [n for n in cfg.real_nodes() if any(c.endswith("_buffer_lock.wait_for") or c.endswith("_buffer_lock.wait") for c in n.call_names())]
+    enough = []
+    for t in cfg.nodes:
+        if t.kind == "test":
+            cn = cnd.canon(t.ast, True)
+            if cn == {(atom, True)}:
+                enough.append(rules.branch_marker(t, "false"))
+            elif cn == {(atom, False)}:
+                enough.append(rules.branch_marker(t, "true"))
+    short = [r for r in rets if cfg.path_exists(cfg.entry, r, avoid=waits + enough)]
+    ok = bool(waits) and not short
+    ctx.ob(rule, wf.qualname, ok, "the bytes are taken only after `size` bytes were seen buffered or waited for" if ok else
+           "there is a path to the peek/pop on which fewer than `size` bytes may be buffered and nothing waits: a frame is cut short when its bytes arrive in two segments", key="waits-when-short", where=wf.where)
+    dflt = dict(zip([a.arg for a in wf.node.args.args][-len(wf.node.args.defaults):], [norm(d) for d in wf.node.args.defaults])) if wf.node.args.defaults else {}
+    ok = dflt == {ps: "1", pp: "False"}
+    ctx.ob(rule, wf.qualname, ok, "by default one byte is waited for and consumed (the callers rely on both defaults)" if ok else
+           f"defaults {dflt}: callers that give no size / no peek flag (wait_for(length), wait_for_byte()) get another amount or an unconsumed read", key="defaults", where=wf.where)
+    wb = repo.method("ByteQueue", "wait_for_byte", inherited=False)
+    ctx.touch(wb)
+    wbd = [norm(d) for d in wb.node.args.defaults]
+    ok = wbd == ["False"]
+    ctx.ob(rule, wb.qualname, ok, "wait_for_byte consumes by default" if ok else f"wait_for_byte defaults {wbd}", key="defaults", where=wb.where)
+    # the one-byte forms are the first byte of the general forms
+    wbn = normal.normalised(ctx, wb)
+    wrets = [x for x in rules.func_stmts(wbn) if isinstance(x, ast.Return)]
+    ok = False
+    if len(wrets) == 1 and isinstance(wrets[0].value, ast.Subscript) and isinstance(wrets[0].value.value, ast.Call) and call_name(wrets[0].value.value) == "self.wait_for":
+        wc = wrets[0].value.value
+        kw = {k.arg: norm(k.value) for k in wc.keywords}
+        size = norm(wc.args[0]) if wc.args else kw.get(ps, "1")
+        flag = norm(wc.args[1]) if len(wc.args) > 1 else kw.get(pp)
+        ok = norm(wrets[0].value.slice) == "0" and size == "1" and flag == wb.node.args.args[1].arg
+    ctx.ob(rule, wb.qualname, ok, "wait_for_byte is byte 0 of wait_for(1, peek)" if ok else f"wait_for_byte returns `{norm(wrets[0].value) if wrets else None}`, not the first byte of wait_for(1, peek)", key="first-byte", where=wb.where)
     rcv = repo.method("Protocol", "_on_connection_data_received", inherited=False)
     ctx.touch(rcv)
     cfg = cfg_of(rcv.node)
@@ -326,19 +362,19 @@ def check_byte_queue(ctx):
     tr = [n for n in cfg.real_nodes() if any(c == "self._thread.trigger_receiver" for c in n.call_names())]
     dp = rcv.node.args.args[1].arg
     ok = len(ap) == 1 and len(tr) == 1 and cfg.dominates(ap[0], tr[0]) and norm(next(c for c in ap[0].calls if call_name(c) == "self._receive_buffer.append").args[0]) == f"{dp}['data']"
-    ctx.ob("C04.W1", rcv.qualname, ok, "received bytes are appended, then the receiver is triggered" if ok else "received bytes are not appended before the receiver is triggered (or not appended unchanged)", where=rcv.where)
+    ctx.ob(rule, rcv.qualname, ok, "received bytes are appended, then the receiver is triggered" if ok else "received bytes are not appended before the receiver is triggered (or not appended unchanged)", where=rcv.where)
     pd = repo.method("Protocol", "_process_data", inherited=False)
     names = [call_name(c) for c in calls_in(pd.node)]
     ok = "self._process_received_data" in names
-    ctx.ob("C04.W1", pd.qualname, ok, "every receiver wake-up runs the framing loop" if ok else "_process_data does not call _process_received_data", where=pd.where)
+    ctx.ob(rule, pd.qualname, ok, "every receiver wake-up runs the framing loop" if ok else "_process_data does not call _process_received_data", where=pd.where)
     init = repo.method("Protocol", "__init__", inherited=False)
     disp = [c for c in calls_in(init.node) if call_name(c) == "ProtocolDispatcher"]
     ok = len(disp) == 1 and [norm(a) for a in disp[0].args[:2]] == ["self._process_data", "self._dispatch_block"]
-    ctx.ob("C04.W1", init.qualname, ok, "the dispatcher is wired to _process_data (receiver) and _dispatch_block (dispatcher)" if ok else f"ProtocolDispatcher is wired with {[norm(a) for a in disp[0].args] if disp else None}", where=init.where)
+    ctx.ob(rule, init.qualname, ok, "the dispatcher is wired to _process_data (receiver) and _dispatch_block (dispatcher)" if ok else f"ProtocolDispatcher is wired with {[norm(a) for a in disp[0].args] if disp else None}", where=init.where)
     conn = repo.method("Protocol", "_connection", inherited=False)
     reg = {norm(c.func): norm(c.args[0]) for c in calls_in(conn.node) if isinstance(c.func, ast.Attribute) and c.func.attr == "register" and c.args}
     ok = any(k.endswith("on_data.register") and v == "self._on_connection_data_received" for k, v in reg.items())
-    ctx.ob("C04.W1", conn.qualname, ok, "the protocol listens to the connection's on_data" if ok else "on_data is not wired to _on_connection_data_received", where=conn.where)
+    ctx.ob(rule, conn.qualname, ok, "the protocol listens to the connection's on_data" if ok else "on_data is not wired to _on_connection_data_received", where=conn.where)
 
 
 def run(ctx):
